@@ -61,6 +61,7 @@ def derived_schema(ver):
  <xs:simpleType name="ilist2"><xs:restriction base="ilist"><xs:length value="2"/></xs:restriction></xs:simpleType>
  <xs:simpleType name="u"><xs:union memberTypes="small xs:boolean word"/></xs:simpleType>
  <xs:simpleType name="us"><xs:union memberTypes="xs:int xs:string"/></xs:simpleType>
+ <xs:simpleType name="umix"><xs:union memberTypes="small"><xs:simpleType><xs:restriction base="xs:boolean"/></xs:simpleType><xs:simpleType><xs:restriction base="xs:token"><xs:minLength value="2"/><xs:maxLength value="4"/></xs:restriction></xs:simpleType></xs:union></xs:simpleType>
  <xs:simpleType name="twoWords"><xs:restriction base="us"><xs:pattern value="[a-z]+ [a-z]+|[0-9]+"/></xs:restriction></xs:simpleType>
  <xs:simpleType name="lead"><xs:restriction base="us"><xs:pattern value="  [a-z]+|[0-9]+"/></xs:restriction></xs:simpleType>
  <xs:simpleType name="qnames"><xs:list itemType="xs:QName"/></xs:simpleType>
@@ -73,7 +74,7 @@ def derived_schema(ver):
  <xs:element name="small" type="small"/><xs:element name="smaller" type="smaller"/><xs:element name="word" type="word"/><xs:element name="en" type="en"/>
  <xs:element name="ilist" type="ilist"/><xs:element name="ilist2" type="ilist2"/><xs:element name="u" type="u"/><xs:element name="money" type="money"/>
  <xs:element name="durs" type="durs"/><xs:element name="stamps" type="stamps"/><xs:element name="ien" type="ien"/><xs:element name="qn23" type="qn23"/><xs:element name="qn2" type="qn2"/><xs:element name="tok23" type="tok23"/>
- <xs:element name="twoWords" type="twoWords"/><xs:element name="lead" type="lead"/></xs:schema>''')
+ <xs:element name="umix" type="umix"/><xs:element name="twoWords" type="twoWords"/><xs:element name="lead" type="lead"/></xs:schema>''')
 
 
 def isint(t): return re.fullmatch(r'[+-]?[0-9]+', t) is not None
@@ -100,6 +101,8 @@ REF = {
     'ilist': lambda t: all(REF['small'](x) for x in t.split(' ')) if t else True,
     'ilist2': lambda t: len(t.split(' ')) == 2 and all(REF['small'](x) for x in t.split(' ')) if t else False,
     'u': lambda t: REF['small'](t) or t in ('true', 'false', '1', '0') or REF['word'](t),
+    # the same members, the first one named by memberTypes and the others given as xs:simpleType children: memberTypes come first (Structures 3.16.2)
+    'umix': lambda t: REF['small'](t) or t in ('true', 'false', '1', '0') or REF['word'](t),
     # restriction of a union by pattern: the pattern applies to the text as normalised by the member that validates it
     # (xs:int collapses, xs:string preserves)
     'twoWords': lambda t: _us(t, r'[a-z]+ [a-z]+|[0-9]+'),
@@ -117,13 +120,13 @@ VALUES = ['ab cd', 'ab  cd', ' ab cd', 'ab cd ', '  ab', ' ab', '12', ' 12 ', 'a
 def eval_derived(args):
     ver, name, v = args
     s = _S.setdefault(ver, derived_schema(ver))
-    t = v if name not in ('word', 'en', 'ien', 'qn23', 'qn2', 'tok23', 'ilist', 'ilist2', 'u', 'small', 'smaller', 'money', 'durs', 'stamps') else re.sub(r' +', ' ', re.sub(r'[\t\n\r]', ' ', v)).strip(' ')
+    t = v if name not in ('word', 'en', 'ien', 'qn23', 'qn2', 'tok23', 'ilist', 'ilist2', 'u', 'umix', 'small', 'smaller', 'money', 'durs', 'stamps') else re.sub(r' +', ' ', re.sub(r'[\t\n\r]', ' ', v)).strip(' ')
     exp = REF[name](t)
     doc = f'<{name}>{v}</{name}>'
     try: got = s.is_valid(doc)
     except Exception as e: got = f'EXC {type(e).__name__}'
     out = dict(ver=ver, type=name, text=v, got=got, exp=exp, ok=got == exp)
-    if got is True and exp and name == 'u':
+    if got is True and exp and name in ('u', 'umix'):
         d = s.decode(doc)
         if d != UNION_DECODE(t) or type(d) is not type(UNION_DECODE(t)): out.update(ok=False, detail=f'union decoded {d!r}, first matching member gives {UNION_DECODE(t)!r}')
     if got is True and exp and name in ('durs', 'stamps') and t:
